@@ -42,7 +42,9 @@ St(o, p, t, d) == [obj |-> o, pres |-> p, sigs |-> t, depth |-> d, signs |-> 3]
 St2(o, p, t, d) == [St(o, p, t, d) EXCEPT !.signs = 2]
 
 StartsQuick ==
-    {St(MainObj, p, "absent", 4) : p \in {"canon", "all"}}
+    \* (after a first Sign the document is canonical whatever it was: the canonical start only differs from
+    \*  the "all" start in what the first action is given, so three actions are enough for it)
+    {St(MainObj, "all", "absent", 4), St(MainObj, "canon", "absent", 3)}
     \cup {St(MainObj, "ws", t, 2) : t \in SigTags \ {"absent"}}
     \cup {St(BareObj, p, "absent", 3) : p \in {"canon", "ws"}}
     \cup {St(FullObj, p, "absent", 3) : p \in {"order", "esc"}}
@@ -55,7 +57,7 @@ StartsThorough ==
     \cup {St(FullObj, p, "absent", 4) : p \in {"order", "esc"}}
 
 \* the unrestricted specification (Spec, every action with every parameter) is model-checked from these
-StartsBase == {St(MainObj, "ws", "absent", 3), St(FullObj, "canon", "absent", 3)}
+StartsBase == {St(MainObj, "ws", "absent", 3)}
 
 UsedKeys == {slog[i].key : i \in 1..Len(slog)}
 \* (IF, not a disjunction: TLC would enumerate both disjuncts as separate sub-actions)
